@@ -17,7 +17,7 @@ def run(chk, tier, seed):
         return
     import random
     rng = random.Random(seed * 31 + 7)
-    roots = D.roots_for(U, exclude=("k13bulk", "hist", "arrayvec", "ignored"))   # (ignored fields load as Default: the Rust-side "same value" comparison does not apply)
+    roots = D.roots_for(U, exclude=("k13bulk", "hist", "arrayvec", "ignored", "vervariant"))   # (ignored fields load as Default: the Rust-side "same value" comparison does not apply)
     nfiles = 30 if tier == "quick" else 200
     pick = rng.sample(roots, min(nfiles, len(roots)))
     # always include a few shapes with trailing strings / vectors / options (cuts inside the last field)
